@@ -98,6 +98,27 @@ def extract(tree):
     g["instances"] = inst
 
     # ---- macro body shapes the model mirrors -----------------------------------------------------------
+    # canonical local names inside the method macros (a renamed local is harmless): the box pointer, the loop index, the operand
+    # variable are found by role; the DIVZERO_* helper macros mention the box of the enclosing macro, so they take DIVMETHOD's mapping
+    def _macro_locals(text):
+        mp = {}
+        m = re.search(r"\bT\s*\*\s*(\w+)\s*=\s*janet_abstract\s*\(", text)
+        if m:
+            mp[m.group(1)] = "box"
+        m = re.search(r"for\s*\(\s*int32_t\s+(\w+)\s*=\s*1\s*;", text)
+        if m:
+            mp[m.group(1)] = "i"
+        m = re.search(r"\bT\s+(\w+)\s*=\s*janet_unwrap_##type\s*\(\s*argv\s*\[", text)
+        if m:
+            mp[m.group(1)] = "value"
+        return mp
+    _plain_macro = globals()["_macro"]
+    _div_map = _macro_locals(_plain_macro(src, "DIVMETHOD"))
+    def _macro(src_, name):                                    # shadows the module-level helper inside extract()
+        t = _plain_macro(src_, name)
+        if name.startswith("DIVZERO"):
+            return _rename(t, {a: b for a, b in _div_map.items() if b == "box"})
+        return _rename(t, _macro_locals(t))
     op = _norm(_macro(src, "OPMETHOD"))
     if not re.search(r"\*box = janet_unwrap_##type\(argv\[0\]\); for \(int32_t i = 1; i < argc; i\+\+\) \*box = \(T\) \(\(uint64_t\) \(\*box\)\) oper \(\(uint64_t\) janet_unwrap_##type\(argv\[i\]\)\);", op):
         raise ExtractError("OPMETHOD body changed: " + op[:200])
